@@ -142,3 +142,47 @@ def bound_args(fu, call):
         if k.arg is not None:
             out.append((k.arg, k.value))
     return out
+
+
+def single_defs(P, u):
+    """{local name: value expr} for locals of u assigned exactly once by a plain `name = expr` (not in a loop target / augmented)"""
+    counts, vals = {}, {}
+    for a in P.own(u, (ast.Assign, ast.AugAssign, ast.AnnAssign, ast.For, ast.With, ast.NamedExpr)):
+        if isinstance(a, ast.Assign):
+            for t in a.targets:
+                for n in names_in_target(t):
+                    counts[n] = counts.get(n, 0) + 1
+                if isinstance(t, ast.Name):
+                    vals[t.id] = a.value
+        elif isinstance(a, (ast.AugAssign, ast.AnnAssign)):
+            for n in names_in_target(a.target):
+                counts[n] = counts.get(n, 0) + 2
+        elif isinstance(a, ast.For):
+            for n in names_in_target(a.target):
+                counts[n] = counts.get(n, 0) + 2
+        elif isinstance(a, ast.NamedExpr):
+            counts[a.target.id] = counts.get(a.target.id, 0) + 2
+    for prm in u.params:
+        counts[prm] = counts.get(prm, 0) + 1        # a parameter that is reassigned has two definitions
+    return {n: v for n, v in vals.items() if counts.get(n) == 1}
+
+
+def resolve_locals(P, u, expr, depth=4):
+    """copy of expr with single-definition locals replaced by their defining expressions (copy propagation on the AST)"""
+    import copy
+    defs = single_defs(P, u)
+
+    class R(ast.NodeTransformer):
+        def __init__(self, d):
+            self.d = d
+
+        def visit_Name(self, node):
+            if isinstance(node.ctx, ast.Load) and node.id in defs and self.d > 0:
+                v = copy.deepcopy(defs[node.id])
+                return R(self.d - 1).visit(v)
+            return node
+    return R(depth).visit(copy.deepcopy(expr))
+
+
+def rtext(P, u, expr):
+    return ast.unparse(resolve_locals(P, u, expr)).replace(' ', '')
